@@ -43,7 +43,7 @@ TraceStep ==
              /\ keys' = keys
         ELSE LET bad == IF Only = "CONF" THEN {} ELSE Violations(Only, S, e, T, aux)
                  ant == IF Only = "CONF"
-                        THEN (IF e.kind = "block" \/ Modelled(S, e) THEN {"modelled", e.tx.m} ELSE {"unmodelled"})
+                        THEN (IF e.kind \in {"block", "query"} \/ Modelled(S, e) THEN {"modelled", e.tx.m} ELSE {"unmodelled"})
                         ELSE Antecedents(Only, S, e, T, aux)
                  drift == IF Only = "CONF" THEN DriftOf(S, e, T) ELSE {}
              IN /\ Report(l + 1, e, bad, S, T)
